@@ -470,3 +470,37 @@ def in_assert(b, n):
     if b.macro_name(n) in names:
         return True
     return any(b.macro_name(a) in names for a in b.ancestors(n))
+
+
+@RULES.rule("R10.17", "blocklisted `size_t` / `ssize_t` are only vouched for while bindgen really writes them as `usize` / `isize` (shared with C09 R9.5)", floor=14)
+def r10_17(rep):
+    """`is_stdint_type` names types bindgen replaces by primitives at every use, so blocklisting them needs no user definition and
+    their traits are known.  With `--no-size_t-is-usize` the two names are ordinary typedefs again; answering "primitive" for them then
+    derives traits through a type only the user defines (seeded independently for C08 and C10)."""
+    import c09
+    c09.r9_5(rep)
+
+
+@RULES.rule("R10.18", "\"a blocklisted template uses all its parameters\" is asked of the template itself", floor=1)
+def r10_18(rep):
+    """`uses_template_parameter(item, param)` answers true for a blocklisted `item`: the user's definition may use every parameter,
+    so every use must spell all arguments.  In `TemplateInstantiation::try_to_rust_ty` the item has to be the template definition
+    RESOLVED through type references: the id stored in the instantiation is a reference item that is blocklisted by name like its
+    target but has no source file, so with `--blocklist-file` the rule is skipped and `Handle<Session>` becomes `Handle` (seeded)."""
+    prog = rep.prog
+    b = rep.need(prog.impl_fn("codegen::TryToRustTy", "ir::template::TemplateInstantiation", "try_to_rust_ty"), "<TemplateInstantiation as TryToRustTy>::try_to_rust_ty")
+    calls = [c for c in b.calls(lambda x: x["k"] == "MCall" and (x.get("callee") or x.get("resolved") or "").endswith("BindgenContext::uses_template_parameter"))]
+    rep.need(calls, "ctx.uses_template_parameter(..) in the argument filter")
+    for c in calls:
+        a0 = c["args"][0]
+        src = b.canon(a0, 10)
+        for x in b.walk(a0):
+            if x["k"] == "Local" and b.local_init(x["id"]) is not None:
+                src += " " + b.canon(b.local_init(x["id"]), 12)
+                for y in b.walk(b.local_init(x["id"])):
+                    if y["k"] == "MCall":
+                        src += " ." + (y.get("name") or "")
+        ok = "through_type_refs" in src
+        rep.check(ok, "asked-of-resolved-definition", "the definition is resolved through type references first" if ok else
+                  "the item asked is `%s`, the id as stored: a reference item has no file, so a template blocklisted by file is not "
+                  "recognised and loses the arguments its fields do not mention" % b.canon(a0, 4)[:80], b.loc(c))
